@@ -333,6 +333,31 @@ func addLanguages(v any) any {
 	return v
 }
 
+// dropBase removes the base-language entry from translation dictionaries that have two other
+// languages (only where the value is a category-like short text: message texts keep their base).
+func dropBase(v any) any {
+	switch t := v.(type) {
+	case map[string]any:
+		_, hasFra := t["fra"].(string)
+		_, hasSpa := t["spa"].(string)
+		if hasFra && hasSpa {
+			for _, base := range []string{"eng", "base"} {
+				if sv, ok := t[base].(string); ok && len(sv) < 24 {
+					delete(t, base)
+				}
+			}
+		}
+		for k, x := range t {
+			t[k] = dropBase(x)
+		}
+	case []any:
+		for i, x := range t {
+			t[i] = dropBase(x)
+		}
+	}
+	return v
+}
+
 // migrationScenarios: every "original" definition of the repository's migration test data, and
 // every legacy flow of the runner test data with two extra translation languages, migrated to latest
 // and put through the flow APIs.
@@ -414,8 +439,86 @@ func migrationScenarios(repo string) []Scenario {
 			defs = append(defs, nb)
 		}
 		run("legacy-multilang:"+filepath.Base(file), defs)
+		// the same with the base-language entry removed from every translation dictionary that has
+		// other languages: what stands in for the missing base text must not depend on map order
+		var nobase []json.RawMessage
+		for _, f := range doc.Flows {
+			nb, _ := json.Marshal(dropBase(addLanguages(f)))
+			nobase = append(nobase, nb)
+		}
+		run("legacy-multilang-without-base:"+filepath.Base(file), nobase)
 	}
 	return out
+}
+
+// groupWorld is a tiny world with a query-based group over a field; with fieldType "" the field does
+// not exist (the same query text is then not valid for these assets).
+func groupWorld(fieldType string) *world.Root {
+	a := world.BaseAssets()
+	var fields []any
+	for _, f := range a["fields"].([]any) {
+		if f.(J)["key"] != "age" {
+			fields = append(fields, f)
+		}
+	}
+	if fieldType != "" {
+		fields = append(fields, J{"uuid": world.UUID("field-age"), "key": "age", "name": "Age", "type": fieldType})
+	}
+	a["fields"] = fields
+	a["groups"] = append(a["groups"].([]any), J{"uuid": world.UUID("c08.adults"), "name": "Adults", "query": "age > 18"})
+	spec := world.FlowSpec{Nodes: []world.Node{{Kind: "A", Dests: []int{-1}}}}
+	a["flows"] = []any{world.Render(0, spec, 0)}
+	c := world.DefaultContact()
+	c["fields"] = J{"age": J{"text": "30", "number": 30}}
+	c["groups"] = []any{J{"uuid": world.UUID("c08.adults"), "name": "Adults"}}
+	return &world.Root{Assets: a, Trigger: "manual", Contact: c, FreshAssets: true}
+}
+
+func runRoot(r *world.Root) string {
+	x, err := r.Start(world.Step{})
+	if err != nil {
+		return "ASSETS/TRIGGER ERROR: " + err.Error()
+	}
+	out := sprintBytes(x.Sprint, x.Err)
+	if x.Err == nil {
+		sj, _ := json.Marshal(x.Session)
+		out += string(sj)
+	}
+	return out
+}
+
+// processStateScenarios: the same computation before and after the process did something else must
+// give the same bytes ("results never depend on ... other incidental process state"). The
+// something-else is chosen to share keys a cache might use: the same group query text over assets
+// in which the field exists, has another type, or does not exist.
+func processStateScenarios() []Scenario {
+	var out []Scenario
+	variants := []string{"number", "text", ""}
+	for _, first := range variants {
+		for _, other := range variants {
+			if first == other {
+				continue
+			}
+			first, other := first, other
+			out = append(out, Scenario{Name: fmt.Sprintf("process-state:group-query field=%q after field=%q", first, other), Run: func() (string, error) {
+				early := runRoot(groupWorld(first))
+				runRoot(groupWorld(other))
+				late := runRoot(groupWorld(first))
+				if early != late {
+					return "", fmt.Errorf("PROCESS-STATE: the same session gives different bytes after the process handled other assets that share the group query text\nbefore: %s\nafter:  %s", trimTo(early, 500), trimTo(late, 500))
+				}
+				return early, nil
+			}})
+		}
+	}
+	return out
+}
+
+func trimTo(s string, n int) string {
+	if len(s) > n {
+		return s[:n] + "…"
+	}
+	return s
 }
 
 // Scenarios lists all scenarios.
@@ -458,5 +561,6 @@ func Scenarios(repo string) []Scenario {
 	}
 	out = append(out, fileScenarios(repo)...)
 	out = append(out, migrationScenarios(repo)...)
+	out = append(out, processStateScenarios()...)
 	return out
 }
